@@ -84,6 +84,13 @@ Proof.
   rewrite app_nil_r. reflexivity.
 Qed.
 
+Lemma take_len_app (p r : bytes) : take_len (N.of_nat (length p)) (p ++ r) = Some (p, r).
+Proof.
+  unfold take_len. rewrite app_length.
+  replace (N.of_nat (length p) <=? N.of_nat (length p + length r)) with true by (symmetry; apply N.leb_le; lia).
+  rewrite Nnat.Nat2N.id. apply take_n_app.
+Qed.
+
 Lemma parse_one_ser f r : wf_rfield f -> parse_one (ser_one f ++ r) = Some (f, r).
 Proof.
   destruct f as [num [v|p|]]; intros (H1 & H2 & H3); cbn [fst snd] in *; try contradiction.
@@ -95,7 +102,7 @@ Proof.
     rewrite parse_tag_enc by lia.
     change (2 =? 0) with false. change (2 =? 2) with true. cbn iota.
     rewrite varint_roundtrip by assumption.
-    rewrite Nnat.Nat2N.id, take_n_app. reflexivity.
+    rewrite take_len_app. reflexivity.
 Qed.
 
 Lemma ser_one_cons f : wf_rfield f -> exists a t, ser_one f = a :: t.
